@@ -59,6 +59,10 @@ func (o op) String() string {
 		return fmt.Sprintf("clock+%s", o.Dur)
 	case "tickidem":
 		return "clock->idempotency-expiry-1ns"
+	case "restart":
+		return "restart-of-the-gateway"
+	case "enq":
+		return fmt.Sprintf("enqueue(%v)", o.IDs)
 	}
 	return fmt.Sprintf("%s(%q)", o.Kind, o.Lease)
 }
@@ -71,10 +75,12 @@ type st struct {
 	// answer). Part of the de-duplication key only: the pull server's idempotency cache is private to a closure and
 	// can depend on nothing but this, so states that differ in it are kept apart even if a correct cache would not.
 	Presented map[string]int64
+	// Gen: number of restarts so far (the pull server's idempotency cache does not survive one); part of the key
+	Gen int
 }
 
 func (s st) clone() st {
-	c := st{M: s.M.Clone(), Remembered: map[string]int64{}, Presented: map[string]int64{}}
+	c := st{M: s.M.Clone(), Remembered: map[string]int64{}, Presented: map[string]int64{}, Gen: s.Gen}
 	c.M.Edges = map[string]int{}
 	for k, v := range s.Remembered {
 		c.Remembered[k] = v
@@ -89,7 +95,7 @@ func opClass(kind string) string {
 	switch kind {
 	case "ack", "ackb":
 		return "ack"
-	case "nack", "nackdead", "nackb":
+	case "nack", "nackd", "nackdead", "nackb":
 		return "nack"
 	}
 	return ""
@@ -98,6 +104,8 @@ func opClass(kind string) string {
 // world: one booted application in a bubble.
 type world struct {
 	a       *app.VerifApp
+	backend string
+	dir     string
 	store   queue.Store
 	handles map[string]string
 	reverse map[string]string
@@ -111,7 +119,7 @@ func boot(backend, dir string) (*world, error) {
 	if err != nil {
 		return nil, err
 	}
-	w := &world{a: a, store: a.Store, handles: map[string]string{}, reverse: map[string]string{}, bases: map[string]int{}}
+	w := &world{a: a, backend: backend, dir: dir, store: a.Store, handles: map[string]string{}, reverse: map[string]string{}, bases: map[string]int{}}
 	for _, id := range []string{"a", "b"} {
 		if err := w.store.Enqueue(queue.Envelope{ID: id, Route: "/r", Target: "pull", Payload: []byte("p-" + id)}); err != nil {
 			return nil, err
@@ -154,6 +162,19 @@ func class(code int) string {
 
 func (w *world) do(o op) httpObs {
 	switch o.Kind {
+	case "restart":
+		// the gateway process ends and a new one starts on the same files through the production boot path; the
+		// workers outside keep the lease ids they hold (the handle tables stay)
+		w.a.Shutdown()
+		a, err := app.VerifBoot(app.VerifBootOptions{Dir: w.dir, ConfigText: dsl(w.backend, 18080)})
+		if err != nil {
+			return httpObs{-1, &qmodel.Obs{Err: qmodel.Other, ErrText: "restart: " + err.Error()}}
+		}
+		w.a, w.store = a, a.Store
+		return httpObs{0, &qmodel.Obs{Err: qmodel.OK}}
+	case "enq":
+		err := w.store.Enqueue(queue.Envelope{ID: o.IDs[0], Route: "/r", Target: "pull", Payload: []byte("p-" + o.IDs[0])})
+		return httpObs{0, &qmodel.Obs{Err: qmodel.ErrClass(err)}}
 	case "tick":
 		time.Sleep(o.Dur)
 		return httpObs{0, &qmodel.Obs{Err: qmodel.OK}}
@@ -197,6 +218,9 @@ func (w *world) do(o op) httpObs {
 		return httpObs{code, &qmodel.Obs{Err: class(code)}}
 	case "nack":
 		code, _ := w.post(endpoint+"/nack", map[string]any{"lease_id": w.real(o.Lease), "delay": "0s"})
+		return httpObs{code, &qmodel.Obs{Err: class(code)}}
+	case "nackd":
+		code, _ := w.post(endpoint+"/nack", map[string]any{"lease_id": w.real(o.Lease), "delay": "5s"})
 		return httpObs{code, &qmodel.Obs{Err: class(code)}}
 	case "nackdead":
 		code, _ := w.post(endpoint+"/nack", map[string]any{"lease_id": w.real(o.Lease), "dead": true, "reason": "boom"})
@@ -252,6 +276,9 @@ func (w *world) listing() []qmodel.Msg {
 }
 
 func enabled(s st, hist []op) []op {
+	if restartFocus {
+		return enabledRestart(s)
+	}
 	ops := []op{{Kind: "deq", Batch: 1}, {Kind: "deq", Batch: 2}}
 	hs := make([]string, 0, len(s.M.Issued))
 	for h := range s.M.Issued {
@@ -262,7 +289,7 @@ func enabled(s st, hist []op) []op {
 		hs = hs[len(hs)-3:]
 	}
 	for _, h := range append(append([]string{}, hs...), "lease_unknown") {
-		for _, k := range []string{"ack", "nack", "nackdead", "ext"} {
+		for _, k := range []string{"ack", "nack", "nackd", "nackdead", "ext"} {
 			ops = append(ops, op{Kind: k, Lease: h})
 		}
 	}
@@ -283,6 +310,35 @@ func enabled(s st, hist []op) []op {
 	if earliest > s.M.Now+1 {
 		ops = append(ops, op{Kind: "tick", Dur: time.Duration(earliest - 1 - s.M.Now)})
 	}
+	return ops
+}
+
+// restartFocus selects the alphabet of the restart searches (set per job process).
+var restartFocus bool
+var curBackend string
+
+// enabledRestart: dequeues, settlements with every lease id a worker may still hold, a fresh enqueue, the expiry of
+// the lease and - at most twice per history - a restart of the gateway process.
+func enabledRestart(s st) []op {
+	ops := []op{{Kind: "deq", Batch: 1}, {Kind: "deq", Batch: 2}}
+	hs := make([]string, 0, len(s.M.Issued))
+	for h := range s.M.Issued {
+		hs = append(hs, h)
+	}
+	sort.Strings(hs)
+	if len(hs) > 3 {
+		hs = hs[len(hs)-3:]
+	}
+	for _, h := range hs {
+		for _, k := range []string{"ack", "nack", "ext"} {
+			ops = append(ops, op{Kind: k, Lease: h})
+		}
+	}
+	ops = append(ops, op{Kind: "enq", IDs: []string{"c"}})
+	if s.Gen < 2 {
+		ops = append(ops, op{Kind: "restart"})
+	}
+	ops = append(ops, op{Kind: "tick", Dur: ttl + time.Second})
 	return ops
 }
 
@@ -317,6 +373,8 @@ func judge(pre st, o op, h httpObs, post []qmodel.Msg) (st, string) {
 			return qmodel.Op{Kind: "ack", Lease: o.Lease}
 		case "nack":
 			return qmodel.Op{Kind: "nack", Lease: o.Lease}
+		case "nackd":
+			return qmodel.Op{Kind: "nack", Lease: o.Lease, Delay: 5 * time.Second}
 		case "nackdead":
 			return qmodel.Op{Kind: "dead", Lease: o.Lease, Reason: "boom"}
 		case "ext":
@@ -331,7 +389,30 @@ func judge(pre st, o op, h httpObs, post []qmodel.Msg) (st, string) {
 		return qmodel.Op{}
 	}
 	switch o.Kind {
-	case "ack", "nack", "nackdead":
+	case "restart":
+		s.Gen++
+		if h.Obs.Err != qmodel.OK {
+			return s, "the gateway did not start again: " + h.Obs.ErrText
+		}
+		if curBackend == "memory" {
+			// the memory backend starts empty; every lease id a worker still holds is foreign from now on
+			s.M.Items = map[string]*qmodel.Msg{}
+			if len(post) != 0 {
+				return s, fmt.Sprintf("%d message(s) in a freshly started memory backend", len(post))
+			}
+			return s, ""
+		}
+		// SQLite: a restart changes nothing - in particular a lease a worker holds stays that worker's lease
+		if why := s.M.Apply(qmodel.Op{Kind: "reopen"}, h.Obs, post); why != "" {
+			return s, why
+		}
+		return s, ""
+	case "enq":
+		if why := s.M.Apply(qmodel.Op{Kind: "enq", Envs: []qmodel.EnvSpec{{ID: o.IDs[0], Route: "/r", Target: "pull", Payload: []byte("p-" + o.IDs[0])}}}, h.Obs, post); why != "" {
+			return s, why
+		}
+		return s, ""
+	case "ack", "nack", "nackd", "nackdead":
 		cur := currentLease(s.M, o.Lease)
 		key := o.Lease + "|" + opClass(o.Kind)
 		if !cur {
@@ -445,15 +526,28 @@ func TestCheck(t *testing.T) {
 	r := runner.Start("C04", "model_checking")
 	backends := []string{"memory", "sqlite"}
 	depth := map[string]int{"memory": runner.Pick(r, 5, 7), "sqlite": runner.Pick(r, 4, 6)}
-	budget := runner.Pick(r, 70*time.Second, 12*time.Minute)
+	budget := runner.Pick(r, 110*time.Second, 12*time.Minute)
 	shards := 12
-	njobs := len(backends) * shards
+	const rshards = 3
+	njobs := len(backends)*shards + len(backends)*rshards // + restart-focus jobs
 	if ji, ok := runner.Job(); ok {
-		backend := backends[ji/shards]
+		label := ""
+		backend := ""
+		rootShard, rootShards := 0, shards
+		if ji >= len(backends)*shards {
+			restartFocus = true
+			label = "restart-focus/"
+			k := ji - len(backends)*shards
+			backend, rootShard, rootShards = backends[k/rshards], k%rshards, rshards
+			depth[backend] = map[string]int{"memory": runner.Pick(r, 5, 7), "sqlite": runner.Pick(r, 4, 6)}[backend]
+		} else {
+			backend, rootShard = backends[ji/shards], ji%shards
+		}
+		curBackend = backend
 		dir := filepath.Join(runner.Scratch(), "c04")
 		eng := &bfs.Engine[st, op]{
 			Name: "c04-" + backend, Workers: 1, MaxDepth: depth[backend], MaxTrans: runner.Pick(r, int64(2_000_000), int64(30_000_000)),
-			Deadline: time.Now().Add(budget), RootShard: ji % shards, RootShards: shards,
+			Deadline: time.Now().Add(budget), RootShard: rootShard, RootShards: rootShards,
 			Init: func() st {
 				return st{Remembered: map[string]int64{}, Presented: map[string]int64{}}
 			}, InitKey: "init", OpName: func(o op) string { return o.Kind },
@@ -475,7 +569,7 @@ func TestCheck(t *testing.T) {
 						res.Violation = "INFRA boot: " + err.Error()
 						return
 					}
-					defer w.a.Shutdown()
+					defer func() { w.a.Shutdown() }()
 					if s.M == nil {
 						m := qmodel.New(qmodel.Config{SweepGranularity: sweep(backend)}, bubbleStart.UnixNano())
 						m.Items["a"] = &qmodel.Msg{ID: "a", Route: "/r", Target: "pull", State: qmodel.Queued, ReceivedAt: m.Now, NextRunAt: m.Now, Payload: []byte("p-a"), SchemaVersion: 1}
@@ -495,7 +589,7 @@ func TestCheck(t *testing.T) {
 					// key: contract state + clock + remembered duplicates + issued leases (the pull server's cache is a
 					// function of these; the store state equals the validated model state)
 					var kb strings.Builder
-					fmt.Fprintf(&kb, "%d|", next.M.Now)
+					fmt.Fprintf(&kb, "%d|g%d|", next.M.Now, next.Gen)
 					for _, it := range next.M.Sorted() {
 						fmt.Fprintf(&kb, "%s,%s,%d,%d,%s,%d;", it.ID, it.State, it.Attempt, it.NextRunAt, it.Lease, it.LeaseUntil)
 					}
@@ -525,7 +619,7 @@ func TestCheck(t *testing.T) {
 			},
 		}
 		res := eng.Run()
-		label := fmt.Sprintf("%s/shard%d-of-%d", backend, ji%shards, shards)
+		label += fmt.Sprintf("%s/shard%d-of-%d", backend, rootShard, rootShards)
 		r.Add("states", res.States)
 		r.Add("transitions", res.Transitions)
 		r.Add("traces_validated_against_impl", res.Transitions)
@@ -558,7 +652,7 @@ func TestCheck(t *testing.T) {
 		r.Finish()
 	}
 	if _, child := runner.IsShard(); !child && runner.ReplayPath() == "" {
-		r.RunJobs(njobs, 16, budget+3*time.Minute)
+		r.RunJobs(njobs, 30, budget+3*time.Minute)
 	}
 	schedPart(r, t)
 	pullDuplicates(r, t)
